@@ -6,7 +6,8 @@ from . import orch
 
 
 def gen_resilient(rng, tier, n_agents=(3, 6), per_agent=(1, 3), algos=("dsa", "mgm", "maxsum"),
-                  tight=True, k_range=(1, 3), max_maxsum_vars=6):
+                  tight=True, k_range=(1, 3), max_maxsum_vars=6,
+                  shapes=("connected", "connected", "tree", "chain", "star", "clique")):
     n_a = rng.randint(*n_agents)
     agents = [f"a{i}" for i in range(n_a)]
     algo = rng.choice(list(algos))
@@ -16,7 +17,7 @@ def gen_resilient(rng, tier, n_agents=(3, 6), per_agent=(1, 3), algos=("dsa", "m
     else:
         n_vars = max(2, min(7, sum(rng.randint(*per_agent) for _ in agents)))
     case = gen.gen_dcop(rng, n_range=(n_vars, n_vars), dom_range=(2, 3),
-                        shapes=("connected", "connected", "tree", "chain", "star", "clique"),
+                        shapes=shapes,
                         arity3_p=0.0, unary_p=0.0, varcost_p=0.0, cost_classes=("small",),
                         initial_p=0.0, str_domain_p=0.0, max_space=3000, renders=("matrix",))
     case["algo"] = algo
